@@ -129,7 +129,7 @@ package composite
 //  C10  a resource that failed to render is never applied.
 
 //@ func (*composite.PTComposer).Compose
-//@ props C05
+//@ props C05 C01 C02 C10
 //@ ghost refsPersisted bool = false
 //@ ghost applied intset = emptyintset
 //@ ghost failed intset = emptyintset
@@ -158,6 +158,7 @@ package composite
 //@ site (resource.Applicator).Apply(_, _, $o, $opts...) as Apply-composed
 //@   where typeis($o, *composed.Unstructured)
 //@   assert [C01:refs-persisted-before-apply] refsPersisted
+//@   assert [C02:composed-resource-must-be-controllable-by-the-xr] len($opts) >= 1 && $opts[0] == resource.MustBeControllableBy(xr.GetUID())
 //@   assert [C10:only-rendered-resources-applied] $o == cds[i] && cds[i] != nil && !(i in failed)
 //@   update applied = ite(err == nil, add(applied, i), applied)
 //@ ensures [C05:every-template-reported] err == nil ==> len(result.Composed) == len(tas)
@@ -479,3 +480,51 @@ package composite
 //@   invariant [C01:aux-reference-list-is-ours] callerfresh(&refs[0])
 //@ site *.SetResourceReferences(_, $r)
 //@   assert [C01:the-built-list-is-what-is-set] $r == refs && len($r) == len(desired)
+
+// C04 / C03 (extra resources): the wrapped function is called with the caller's function name and
+// request at most MaxRequirementsIterations+1 times; a response is returned without error only if
+// it is the last response received and either carries a fatal result or repeats the requirements
+// of the round before (they stopped changing) - requirements that never stabilise end in an
+// error; before a further round the extra resources are replaced by exactly one entry per name
+// the latest requirements ask for, and the context is the one just returned.
+//@ func (*composite.FetchingFunctionRunner).RunFunction
+//@ props C04 C03
+//@ requires c != nil && req != nil
+//@ ghost rounds int = 0
+//@ ghost stable bool = false
+//@ ghost fatal bool = false
+//@ let $last = result (composite.FunctionRunner).RunFunction
+//@ site (composite.FunctionRunner).RunFunction(_, _, $n, $r)
+//@   assert [C04:wrapped-function-gets-the-callers-name-and-request] $n == name && $r == req
+//@   assert [C04:bounded-number-of-rounds] rounds <= 5
+//@   update rounds = rounds + 1
+//@   update stable = false
+//@   update fatal = false
+//@ site (*v1.Result).GetSeverity($rs)
+//@   update fatal = fatal || result == fnv1.Severity_SEVERITY_FATAL
+//@ site reflect.DeepEqual($a, $b)
+//@   update stable = result
+//@ ensures [C04,C03:returned-response-is-final-and-settled] err == nil ==> result == $last && (stable || fatal)
+//@ loop for i <= MaxRequirementsIterations
+//@   invariant [C04:rounds-counted] rounds == i && 0 <= i
+//@ loop range rsp.GetResults()
+//@   invariant [C04:no-fatal-result-so-far] !fatal
+//@ loop range newRequirements.GetExtraResources()
+//@   invariant [C04:only-required-names-are-supplied] forall k:Str :: k in req.ExtraResources ==> k in visited
+//@   invariant [C04:every-required-name-visited-is-supplied] forall k:Str :: k in visited ==> k in req.ExtraResources
+//@   invariant [C04:rounds-unchanged-while-fetching] rounds == i + 1
+
+// C03 / C02 (patch-and-transform garbage collection): the resources relabelled and deleted while
+// associating templates are referenced by the XR, carry a template name that no template of the
+// Composition has any more, and are uncontrolled or controlled by this XR.
+//@ func (*composite.GarbageCollectingAssociator).AssociateTemplates
+//@ props C03 C02
+//@ requires a != nil && cr != nil
+//@ loop range ct
+//@   invariant [C03:template-names-indexed] forall j :: 0 <= j && j < done ==> ct[j].Name != nil && *ct[j].Name in templates
+//@ site (client.Writer).Update(_, _, $o, $uo...)
+//@   assert [C03:only-resources-without-a-template-are-relabelled] $o == cd && name != "" && !(name in templates)
+//@   assert [C02:never-relabel-what-another-owner-controls] metav1.GetControllerOf(cd) == nil || metav1.GetControllerOf(cd).UID == cr.GetUID()
+//@ site (client.Writer).Delete(_, _, $o, $do...)
+//@   assert [C03:only-resources-without-a-template-are-deleted] $o == cd && name != "" && !(name in templates)
+//@   assert [C02:never-delete-what-another-owner-controls] metav1.GetControllerOf(cd) == nil || metav1.GetControllerOf(cd).UID == cr.GetUID()
